@@ -456,6 +456,16 @@ func (c *FnCtx) sevCall(sc *specCtx, e *SExpr) *Term {
 			}
 			c.unboxFn(x.Sort)
 			return mk("box_"+mangleSort(x.Sort), SInt, x)
+		case "atentry":
+			// atentry(e): the value of e when the loop (or walk) whose invariant this is was entered
+			if c.curEntry == nil {
+				c.specErr(e, "atentry outside a loop invariant")
+			}
+			sc2 := &specCtx{st: c.curEntry, env: sc.env, old: sc.old, site: sc.site}
+			c.curEntry.noAssume++
+			r := c.sev(sc2, args[0])
+			c.curEntry.noAssume--
+			return r
 		case "cast":
 			// cast(x, T): the same reference seen at another static type (pointer conversions are the identity)
 			x := c.sev(sc, args[0])
